@@ -122,7 +122,7 @@ SubAfterPost(s, ids) ==
 SubAfterPull(s, out, queueAfter, t) ==
     LET newAcks == {out[i].ack : i \in 1..Len(out)}
         entry(a) == LET i == CHOOSE j \in 1..Len(out) : out[j].ack = a
-                    IN [m |-> out[i].m, dl |-> out[i].dl, lo |-> t + s.D, hi |-> t + s.D + Slack]
+                    IN [m |-> out[i].m, dl |-> out[i].dl, lo |-> t + s.D, hi |-> t + s.D + Slack, md |-> FALSE]
     IN [s EXCEPT !.queue = queueAfter,
                  !.lease = [a \in (DOMAIN s.lease) \cup newAcks |->
                               IF a \in newAcks THEN entry(a) ELSE s.lease[a]],
@@ -141,7 +141,7 @@ SubAfterOneMod(s, mod) ==
     IF mod.ack \notin DOMAIN s.lease THEN s
     ELSE IF mod.dl = None
          THEN [s EXCEPT !.lease = Without(@, mod.ack), !.queue = Append(@, s.lease[mod.ack].m)]
-         ELSE [s EXCEPT !.lease[mod.ack] = [m |-> @.m, dl |-> mod.dl, lo |-> mod.lo, hi |-> mod.hi]]
+         ELSE [s EXCEPT !.lease[mod.ack] = [m |-> @.m, dl |-> mod.dl, lo |-> mod.lo, hi |-> mod.hi, md |-> TRUE]]
 
 RECURSIVE SubAfterMods(_, _)
 SubAfterMods(s, mods) ==
@@ -190,7 +190,10 @@ ExpireGuards(s, acks, t, judgeLate, early) ==
     { G("BIND", acks # <<>> /\ NoDup(acks)),
       G("C02", SeqSet(acks) \subseteq DOMAIN s.lease),     \* never an acknowledged / nacked delivery
       G("C04", \A i \in 1..Len(acks) : acks[i] \in DOMAIN s.lease => t >= s.lease[acks[i]].lo - early),
-      G("C04", judgeLate => \A i \in 1..Len(acks) : acks[i] \in DOMAIN s.lease => t <= s.lease[acks[i]].hi) }
+      \* not later than the slack after the deadline (C04) - also after a ModifyAckDeadline moved it
+      \* ("the C04 redelivery rule then applies to the new deadline": C05)
+      G("C04", judgeLate => \A i \in 1..Len(acks) : (acks[i] \in DOMAIN s.lease /\ ~s.lease[acks[i]].md) => t <= s.lease[acks[i]].hi),
+      G("C04,C05", judgeLate => \A i \in 1..Len(acks) : (acks[i] \in DOMAIN s.lease /\ s.lease[acks[i]].md) => t <= s.lease[acks[i]].hi) }
 
 ModGuards(s, mods, early) ==
     { \* a deadline set EARLIER than the request asked for ends the consumer's lease while the consumer
